@@ -28,7 +28,8 @@ BASES = 'ACGT'
 
 def gen_vcf(rng, tier):
     nsamp = rng.choice([1, 2, 2, 3, 3, 4])
-    samples = ['SA', 'SB', 'S3', 'S-4'][:nsamp]
+    # legal VCF sample names: with a space ('CAST EiJ'), dash, dot, plus, colon (no comma: the cache format joins with ',')
+    samples = rng.choice([['SA', 'SB', 'S3', 'S-4'], ['SA', 'CAST EiJ', 'S.3+x', 'S-4'], ['129S1 SvImJ', 'SB', 'S:3', 'S 4']])[:nsamp]
     pool = ['chr1', 'chr2', 'chr3', 'chrUn_KI270742v1', 'ERCC-00002', 'KN12', '7_random', 'chr11', 'chr1_alt', 'chr1_alt']   # names containing each other
     contigs = ['chr1'] + sorted(set(rng.sample(pool[1:], rng.randint(0, 3))), key=pool.index)
     absent = ['chrAbsent'] + ([rng.choice([c for c in pool if c not in contigs])] if rng.random() < 0.5 else [])
@@ -196,7 +197,16 @@ def gen_ops(rng, v, n):
                 site = [s for s in v['sites'] if s['c'] == c and s['pos1'] - 1 == q]
                 cand = [x for x in ([site[0]['ref']] + site[0]['alts'] if site else []) if len(x) == 1 and x in BASES]
                 seq.append(rng.choice(cand) if cand and rng.random() < 0.85 else rng.choice(BASES))
-            ops.append({'op': 'read', 'c': c, 'p': start, 'b': '-', 'seq': seq})
+            if rng.random() < 0.5:
+                ops.append({'op': 'read', 'c': c, 'p': start, 'b': '-', 'seq': seq})
+            elif c not in v['absent']:
+                # the library's own consumer of the resolver: a molecule over the sites gets its allele tags (DA / ap) written;
+                # afterwards the same positions are looked up again - the resolver's answers must be unchanged
+                ops.append({'op': 'mol', 'c': c, 'p': start, 'b': '-', 'seq': seq})
+                for k, b in enumerate(seq):
+                    if any(s['c'] == c and s['pos1'] - 1 == start + k for s in v['sites']):
+                        ops.append({'op': 'get', 'c': c, 'p': start + k, 'b': b})
+                        ops.append({'op': 'has', 'c': c, 'p': start + k, 'b': '-'})
         elif r < 0.32:
             ops.append({'op': 'has', 'c': c, 'p': p, 'b': '-'})
         else:
@@ -279,7 +289,22 @@ def execute_run(AlleleResolver, vcf_path, run, contigs=None):
         for o in run['ops']:
             rec = dict(o)
             try:
-                if o['op'] == 'read':
+                if o['op'] == 'mol':
+                    from singlecellmultiomics.molecule import MoleculeIterator
+                    rd = make_read(contigs, o['c'], o['p'], o['seq'])
+                    rd.set_tag('SM', 'CELL_1')
+                    rd.set_tag('RX', 'CAT')
+                    tags = []
+                    for m in MoleculeIterator([rd], yield_invalid=True, molecule_class_args={'allele_resolver': ar}):
+                        m.write_tags()
+                        if hasattr(m, 'get_allele_likelihoods'):
+                            try:
+                                m.get_allele_likelihoods()
+                            except Exception:
+                                pass
+                        tags.append(str(rd.get_tag('DA')) if rd.has_tag('DA') else '')
+                    rec['ans'] = tags          # recorded, not judged: the DA rule belongs to the consensus machinery
+                elif o['op'] == 'read':
                     rd = make_read(contigs, o['c'], o['p'], o['seq'])
                     un = make_read(contigs, o['c'], o['p'], o['seq'])
                     un.is_unmapped = True        # getAllele skips missing mates and unmapped reads
@@ -291,7 +316,7 @@ def execute_run(AlleleResolver, vcf_path, run, contigs=None):
                     rec['ans'] = bool(ar.has_location(o['c'], o['p']))
                 rec['raised'] = 'none'
             except Exception as ex:
-                rec['ans'] = [] if o['op'] in ('get', 'read') else False
+                rec['ans'] = [] if o['op'] in ('get', 'read', 'mol') else False
                 rec['raised'] = type(ex).__name__
             out['ops'].append(rec)
     return out
